@@ -2,17 +2,45 @@
 """Regenerates MANIFEST.json from the table below (kept next to the checks so the two stay in sync)."""
 import json, sys
 
+HIST_NOTE = "Trusts the in-memory object_store (InMemory behind the VStore wrapper) and the arrow readers; tables have a unique uid column plus 1-4 flat scalar columns; concurrency is at commit granularity (stale handles, retries off)."
+
+def hist(text, ref, tech="model-based stateful property testing (proptest histories against a reference table model)", note=HIST_NOTE, cat="exploration"):
+    return (tech, text, note, ref, cat)
+
 CHECKS = {
- # id: (technique, level text, level note, design_ref)
- "C05": ("model-based stateful property testing (proptest histories + invariant bundle after every commit)",
-         "Generated histories of up to 12 public write/maintenance operations (incl. stale-handle concurrent ones) on an in-memory object store; after every commit an independent well-formedness bundle (field ids, data-file fields, physical rows, deletion vectors, fragment ids, row id sequences, index fields, validate()) and a full model comparison run on the new version and a sampled old one. Exploration: bounded histories, no absence proof.",
-         "Trusts the in-memory object_store implementation and arrow readers; schemas limited to flat scalar columns plus uid.", "§3 C05"),
+ "C01": hist("A generated prefix history builds a table; a generated victim write is first run fault-free on a store snapshot (learning its N mutating storage calls, commit point and model post-state), then re-run from the snapshot with a crash-before / crash-after / fail-without-effect fault at generated calls k in [0,N]; after each fault a fresh process opens the table under a generated listing order and versions must be dense, old versions unchanged, new versions complete and validated, nothing visible before the commit point, Ok => latest. Conditional-put and rename-if-not-exists handlers, V1/V2 names.", "3 C01", tech="fault injection at every mutating storage call of a generated write + model comparison after recovery", cat="fault_enumeration"),
+ "C03": hist("Histories where 55% of the steps run on a stale handle (executed at read version r, committed after the transactions published since r, lance retries off): a committed transaction must leave exactly its model effect (computed at r) applied on the latest model state, indexed and un-indexed scans agree, a failed one leaves the contents unchanged, and no two concurrent committed transactions modify the same row.", "3 C03", tech="stale-handle concurrency histories + model-based serial replay oracle"),
+ "C04": hist("Delete / update / merge_insert (both update modes) racing through stale handles over generated overlapping and disjoint row sets: the uid set a committed stale transaction touched (model, at its read version) is disjoint from the sets of every transaction committed since; final table equals the model; failed transactions leave no trace.", "3 C04", tech="stale-handle concurrency histories + affected-row-set disjointness oracle"),
+ "C05": hist("Generated histories of up to 12 public write/maintenance operations (incl. stale-handle concurrent ones); after every commit an independent well-formedness bundle (field ids, data-file fields, physical rows, deletion vectors, fragment ids, row id sequences, index fields, validate()) and a full model comparison run on the new version and a sampled old one.", "3 C05"),
+ "C06": hist("Every version's model state, deletion count and index (name, uuid) list is fixed at commit time; after every later step (restore, overwrite, compaction, index ops, tags, rebased commits) every version is re-opened, alternating the warm session and a brand-new one, and must read the same.", "3 C06"),
+ "C07": hist("Histories with frequent restore(v): the restored latest version equals v's model state, index names and uid->row id map and keeps the stable-row-id flag; over the whole history a row id is never re-bound to another uid; live row ids resolve to current values.", "3 C07"),
+ "C12": hist("Generated delete / update / merge_insert (all when-matched / not-matched / by-source settings, full and sub-schema sources, duplicate and NULL keys, indexed or not) against an independent three-valued SQL evaluator: scan == model, rows_updated / MergeStats == model counts, count_rows(filter) and count_deleted_rows consistent, ambiguous merges and WhenMatched::Fail must fail without effect.", "4 C12", tech="model-based property testing with an independent three-valued SQL evaluator"),
+ "C13": hist("Histories with compact_files under generated options and distributed compaction (plan -> generated subset/order of tasks -> one or two commits), with scalar indices and stable row ids on/off: contents unchanged (multiset), uid -> (row id, created_at, updated_at) unchanged across each compaction, indexed query panels equal un-indexed ones and the model.", "4 C13"),
+ "C14": hist("Histories dominated by add_columns (all-null, SQL copy, SQL arithmetic), Dataset::merge left joins, alter (rename, nullability, lossless and lossy casts), drop and re-add of names, interleaved with writes: every step's full scan equals a model that tracks columns by identity; field ids unique.", "4 C14"),
+ "C15": hist("After a generated history the ordered scan with _rowid/_rowaddr is the reference: every reported id/address resolves back to its row, and generated key lists (duplicates, inversions, runs, fragment boundaries, projections) fetched via take / take_rows / take by address / take_scan return the reference rows in request order with multiplicity.", "4 C15", tech="differential property testing: random access vs ordered reference scan (itself checked against the model)"),
+ "C16": hist("Generated filters (typed grammar), projections, limit/offset, multi-key order_by and scanner knob settings on generated typed tables: result == independent three-valued evaluator (multiset / expected key window), every knob setting returns the default result, count_rows(filter) == rows returned, strict batches exact.", "4 C16", tech="differential (reference evaluator) + metamorphic (knob independence) property testing"),
+ "C17": hist("Stable-row-id tables: the model keeps per uid the creation and last-update version per the documented rules; after every commit the version columns must equal it, and delta(begin,end) for ALL version pairs must return exactly the model's inserted / updated sets.", "4 C17"),
+ "C18": hist("Stable-row-id histories incl. stale-handle writers and restores: no duplicate row ids, surviving uids keep their id through updates/upserts/compaction, take_rows(all live ids) returns current values, deleted ids resolve to nothing, ids are never re-bound.", "4 C18"),
+ "C19": hist("BTree/Bitmap indices on columns of every scalar type incl. nullable ones and floats with NaN/-0.0, histories with unindexed tails, deletes, updates, compaction remaps, optimize: predicate panels (=,<>,<,<=,>,>=,[NOT] BETWEEN,[NOT] IN,NOT,IS [NOT] NULL) and generated predicate trees return the same uid set with and without the index (and the model's).", "5 C19", tech="metamorphic property testing (use_scalar_index on vs off) + model evaluator"),
  "C21": ("exhaustive small-universe enumeration + random set-program differential testing against an exact finite/co-finite set model",
          "All boolean trees of depth <=2 over <=2 mock index leaves with every exact/at-most/at-least assignment over a 2-id universe are enumerated (complete in thorough), plus sampled depth-4 trees over 3 leaves / 4 ids; RowIdTreeMap/RowIdMask programs are compared step by step with an exact set algebra model on boundary probes.",
-         "Mock ScalarIndex honours its declared guarantee by construction; ranges are short so the model stays exact.", "§5 C21"),
+         "Mock ScalarIndex honours its declared guarantee by construction; ranges are short so the model stays exact.", "5 C21", "exploration"),
+ "C24": hist("create_index / optimize_indices racing (stale handles, both commit orders) with column-rewriting updates, sub-schema merge_insert, compaction: after every commit indexed-column query panels must equal the un-indexed scan and the model that knows the new values.", "5 C24", tech="stale-handle concurrency histories + index-vs-scan metamorphic oracle"),
+ "C28": ("round-trip property testing with enumeration of all (type, bit width) pairs", "FSST: generated byte-string arrays (i32/i64 offsets, all byte values, repeats, incompressible data, sizes around the 32 KiB threshold, sliced offsets) with caller-sized buffers: compress errs or decompress reproduces bytes and offsets. Bit-packing: all 124 (T,W) pairs x patterns, unpack(pack(x)) == x.", "fsst uses OS randomness for sampling (compressed bytes vary, round trip must not); only the proptest driver is used, no cargo-fuzz campaign.", "6 C28", "exploration"),
+ "C30": ("model-based property testing of range coalescing/splitting + schedule exploration on a paused-clock runtime with a gated store", "Generated sorted range lists (empty, overlapping, contained, adjacent, far) over generated files through FileScheduler and LanceEncodingsIo: one buffer per range with the file's bytes; 1-6 concurrent prioritised requests under generated completion orders, buffer budgets and scheduler drops must all resolve (virtual-time hang detection).", "LANCE_MAX_IOP_SIZE is a process-wide static: only the default is covered in-process; unsorted lists are reported, not asserted.", "7 C30", "exploration"),
+ "C31": ("model-based property testing with fault injection into put / put_part / complete", "Generated write/flush sequences below, at and above the multipart threshold ending in shutdown, abort or drop, with an injected failure: after shutdown the object equals the concatenation and the reported size; nothing visible before; nothing left after failure/abort/drop.", "Cases capped at 26 MiB, the 10-part parallelism cap is not reached.", "7 C31", "exploration"),
+ "C32": ("round-trip property testing over generated well-formed metadata values", "Manifest (write_manifest/read_manifest on a store), Transaction with all 15 Operation variants, IndexMetadata, DataFile/Fragment/DeletionFile (protobuf and JSON), RowIdSequence (all segment kinds), version sequences, deletion vectors in both file formats around the threshold, MemWAL details, tag/branch JSON: decode(encode(x)) == x incl. order-sensitive comparisons where the type's PartialEq ignores order.", "Values restricted to what the writers can produce (0 = unknown sentinels etc.).", "8 C32", "exploration"),
+ "C33": ("round-trip property testing + generated directory layouts on the controlled store and the local file system", "u64 boundary and random versions round-trip through both naming schemes, detached names never parse as attached, V2 names sort descending; generated _versions directories (staging, temp, detached, junk files, generated listing orders) resolve to the highest attached version; V1->V2 migration preserves the version set and is idempotent.", "Stores never lie about their listing order.", "8 C33", "exploration"),
  "C34": ("model-based property testing against Vec<u64> + exhaustive small lists",
          "Row id sequences built from generated pieces (all five segment encodings, 2^32 boundaries, near u64::MAX) undergo generated delete/mask/slice/get/select/serde/rechunk/mask_to_offset_ranges/RowIdIndex operations; each result equals the same operation on a plain list. Lists over {0..7} up to length 3 (quick) / 4 (thorough) are enumerated completely.",
-         "Ids are unique and < u64::MAX; select offsets and mask positions sorted (documented preconditions).", "§8 C34"),
+         "Ids are unique and < u64::MAX; select offsets and mask positions sorted (documented preconditions).", "8 C34", "exploration"),
+ "C35": ("differential property testing against an f64 scalar reference with derived (Higham) error bounds; all lengths 0..=1100 enumerated", "l2/dot/cosine/norm/hamming single, batch and Arrow-batch kernels for f16/bf16/f32/f64/u8 agree with the scalar definition within gamma_n bounds (exact for hamming/u8); nearest-centroid helpers pick a centroid within the bound of the minimum, NaN never wins.", "Only kernels compiled for this CPU (no fp16kernels C code); comparisons skipped where overflow cannot be excluded.", "9 C35", "exploration"),
+ "C36": ("model-based stateful property testing against a hierarchical map model", "Generated sequences of namespace/table create, drop, register, deregister, describe, exists and paged list calls over names from a delimiter/quote/slash/percent/unicode alphabet in directory, manifest and dual modes: every call is rejected without effect or behaves like a map from (namespace path, name) to table; operations on one id never affect another; accepted names round-trip; paging visits every entry once.", "Scratch directories on the local file system; after a listed known defect made catalog and model diverge the case ends.", "9 C36", "exploration"),
+ "C37": ("exhaustive enumeration of flag words and version strings + table-level flag injection and generated histories", "All 2^6 known-bit words x unknown bits through can_read/can_write; all version variants / pairs / strings; flag words injected into real tables (open refused iff unknown reader bit; every write entry point must refuse unknown writer bits); after generated histories the written flags equal the function of the manifest contents; files carry the table's storage version.", "Flag injection rewrites the latest manifest through the public protobuf types.", "8 C37", "exploration"),
+ "C39": hist("2-3 writers with stale handles run advance/append/seal/flush/merge/owner-change/trim/merge_insert-with-merge on 1-2 regions in generated orders: after every commit the MemWAL index satisfies the generation/state/trim invariants and no two concurrent changes of one generation both commit.", "9 C39", tech="stale-handle concurrency histories + state-machine invariant oracle", note="Concurrency at commit granularity via stale handles; create_mem_wal_generation with arbitrary numbers is not generated."),
+ "C40": ("model-based property testing on a plain value tree", "Generated nested arrow arrays (sliced, nulls at every level, garbage behind nulls): merge / merge_with_schema / project_by_schema / take / deep copy / filter_garbage_nulls / trimmed_values / normalize_slicing / pushdown_nulls equal the model on a Value tree plus their physical post-conditions; JSON encode/decode and json path / extract UDFs equal serde_json.", "merge is asserted only for its documented (non-nested) behaviour.", "9 C40", "exploration"),
+ "C41": ("model-based property testing with generated reader/writer interleavings", "Replay spill: generated batch sequences, memory limits and readers opened before/during/after writing, polled in a generated interleaving: every reader sees exactly the written batches (or the sent error after a prefix). Chunkers: exact sizes except the last, concatenation == input.", "After send_error only a prefix followed by the error is required.", "9 C41", "exploration"),
+ "C43": ("model-based property testing against a field-id set model", "Generated nested schemas (names with dots, backticks, unicode, case variants; custom ids with holes) under project / project_by_ids / exclude / intersection / merge and Projection union/subtract/intersect sequences equal the set operations on field ids closed under ancestors; kept fields keep all attributes; path quoting round-trips; Arrow and protobuf conversions are identities.", "Field order is not compared.", "8 C43", "exploration"),
 }
 
 NOT_APPLICABLE = {}
@@ -24,7 +52,7 @@ def main():
     for pid in ids:
         if pid not in CHECKS:
             continue
-        tech, text, note, ref = CHECKS[pid]
+        tech, text, note, ref, cat = CHECKS[pid]
         checks.append({
             "property_id": pid,
             "quick_cmd": f"./check {pid} quick",
@@ -32,7 +60,7 @@ def main():
             "evidence_file": f"/verif/evidence/{pid}.json",
             "replay_cmd_template": f"./check {pid} quick --replay {{path}}",
             "engine": "lv",
-            "level_claimed": {"category": "exploration", "text": text, "design_ref": ref},
+            "level_claimed": {"category": cat, "text": text, "design_ref": "DESIGN.md section " + ref},
             "level_note": note,
             "technique": tech,
         })
